@@ -7,30 +7,40 @@ import Jqawk.Model.Parser
 
 namespace Jqawk
 
+mutual
 /-- `NewValue(interface{})` for a decoded JSON value: allocate the cells of the tree -/
-def newValueJson : Nat → JVal → EM Val
-  | 0, _ => oof
-  | n + 1, j =>
-    match j with
-    | .null => pure (.nil none)
-    | .bool b => pure (.bool b)
-    | .num lit => pure (.num ((F64.parse lit).getD F64.zero))
-    | .str s => pure (.str s none)
-    | .arr items => do
-      let cells ← items.mapM (fun it => do let v ← newValueJson n it; newCell v)
-      let h ← getHeap
-      let (a, h') := h.allocArr cells.toArray
-      setHeap h'
-      return .arr a
-    | .obj members => do
-      let cells ← members.mapM (fun kv => do let v ← newValueJson n kv.2; let c ← newCell v; pure (kv.1, c))
-      let h ← getHeap
-      let (o, h') := h.allocObj (cells.foldl (fun m kc => objInsert m kc.1 kc.2) [])
-      setHeap h'
-      return .obj o
-
-/-- fuel for `newValueJson`: the decoder refuses nesting beyond 10000 -/
-def jsonFuel : Nat := 10010
+def newValueJson : JVal → EM Val
+  | .null => pure (.nil none)
+  | .bool b => pure (.bool b)
+  | .num lit => pure (.num ((F64.parse lit).getD F64.zero))
+  | .str s => pure (.str s none)
+  | .arr items => do
+    let cells ← newValueItems items
+    let h ← getHeap
+    let (a, h') := h.allocArr cells.toArray
+    setHeap h'
+    return .arr a
+  | .obj members => do
+    let cells ← newValueMembers members
+    let h ← getHeap
+    let (o, h') := h.allocObj (cells.foldl (fun m kc => objInsert m kc.1 kc.2) [])
+    setHeap h'
+    return .obj o
+def newValueItems : List JVal → EM (List CellId)
+  | [] => pure []
+  | j :: js => do
+    let v ← newValueJson j
+    let c ← newCell v
+    let cs ← newValueItems js
+    return c :: cs
+def newValueMembers : List (Bytes × JVal) → EM (List (Bytes × CellId))
+  | [] => pure []
+  | (k, j) :: ms => do
+    let v ← newValueJson j
+    let c ← newCell v
+    let cs ← newValueMembers ms
+    return (k, c) :: cs
+end
 
 /-- evaluation fuel: a bound on the recursion depth of one run, not on the claims -/
 def evalFuel : Nat := 1000000
@@ -101,19 +111,33 @@ def evalPatternRules (rules : List Rule) : EM Unit := do
 inductive Flow | continue_ | exit
   deriving DecidableEq
 
-/-- `evalSpecialRule` in a loop: `next` finishes the rule, `exit` ends the run -/
+/-- how a BEGIN/END/BEGINFILE/ENDFILE rule body ends: `next` just finishes the rule
+    (`evalSpecialRule`), `exit` ends the run, everything else propagates -/
+def ruleFlow (m : EM Unit) : EM Flow := fun s =>
+  match m s with
+  | .ok () s' => .ok .continue_ s'
+  | .err (.sig .next) s' => .ok .continue_ s'
+  | .err (.sig .exit) s' => .ok .exit s'
+  | .err e s' => .err e s'
+  | .oof => .oof
+
+/-- `exit` raised by the pattern rules ends the run successfully -/
+def catchExit (m : EM Unit) : EM Flow := fun s =>
+  match m s with
+  | .ok () s' => .ok .continue_ s'
+  | .err (.sig .exit) s' => .ok .exit s'
+  | .err e s' => .err e s'
+  | .oof => .oof
+
+/-- the BEGIN / END / BEGINFILE / ENDFILE rule loops of `EvalProgram` -/
 def evalSpecialRules (mkRoot : EM CellId) : List Rule → EM Flow
   | [] => pure .continue_
   | rule :: rest => do
     let c ← mkRoot
     modifySt fun s => { s with ruleRoot := some c }
-    fun s =>
-      match evalStmt prog evalFuel rule.body s with
-      | .ok () s' => evalSpecialRules mkRoot rest s'
-      | .err (.sig .next) s' => evalSpecialRules mkRoot rest s'
-      | .err (.sig .exit) s' => .ok .exit s'
-      | .err e s' => .err e s'
-      | .oof => .oof
+    match (← ruleFlow (evalStmt prog evalFuel rule.body)) with
+    | .exit => return .exit
+    | .continue_ => evalSpecialRules mkRoot rest
 
 /-! ### the whole run -/
 
@@ -149,7 +173,7 @@ def evalSelector (tbl : RuleTable) (sel : Bytes) (rootValue : JVal) (s : St) :
   | .ok expr =>
     let s0 := newEvaluator Program.empty s.heap s.out s.faults
     let run : EM CellId := do
-      let v ← newValueJson jsonFuel rootValue
+      let v ← newValueJson rootValue
       let rootCell ← newCell v
       modifySt fun st => { st with root := some rootCell, ruleRoot := some rootCell }
       let cell ← evalExpr Program.empty evalFuel expr
@@ -193,13 +217,7 @@ def processRoot (rootCell : CellId) : EM Flow := do
   | .exit => return .exit
   | .continue_ =>
     modifySt fun s => { s with root := some rootCell }
-    let r : Flow ← fun s =>
-      match evalPatternRules prog (rulesOf prog .pattern) s with
-      | .ok () s' => .ok .continue_ s'
-      | .err (.sig .exit) s' => .ok .exit s'
-      | .err e s' => .err e s'
-      | .oof => .oof
-    match r with
+    match (← catchExit (evalPatternRules prog (rulesOf prog .pattern))) with
     | .exit => return .exit
     | .continue_ => evalSpecialRules prog (newCell rootVal) (rulesOf prog .endFile)
 
@@ -244,7 +262,7 @@ def processFile (src : Bytes) (tbl : RuleTable) (sels : List Bytes) (file : Inpu
       | .ok () s1 =>
         let roots : Roots :=
           if sels.isEmpty then
-            match (do let val ← newValueJson jsonFuel v; newCell val : EM CellId) s1 with
+            match (do let val ← newValueJson v; newCell val : EM CellId) s1 with
             | .ok c s2 => .cells [c] s2
             | .err e s2 => .stop (errOutcome src e) s2
             | .oof => .stop .oof s1
